@@ -327,6 +327,17 @@ pub fn encode<const B: usize, const L: usize>(ws: &mut WriteSeam, p: &Plan, vals
     if out[..skip] != MARK[..skip] {
         ws.ctx.violate("ENC!=REF", "to_sql clobbered existing buffer content");
     }
+    // float column types are excluded from the round trip, but the wire size is part of the format
+    let want_len = match wname(p) {
+        "FLOAT4" => Some(4),
+        "FLOAT8" => Some(8),
+        _ => None,
+    };
+    if let Some(n) = want_len {
+        if out.len() - skip != n {
+            ws.ctx.violate("ENC!=REF", format!("postgres {} value encoded in {} bytes instead of {n}", wname(p), out.len() - skip));
+        }
+    }
     ws.append(&out[skip..]);
     Ok(())
 }
